@@ -367,7 +367,7 @@ static std::string runT(TS &ts)
     items.back()->ty = ty;
   }
   std::ostringstream out;
-  std::string reuse, statics, copies;
+  std::string reuse, statics, copies, moved;
   // ---- encode with the real BufferWriter, size with the real WriteSizeCalculator
   BufferWriter bw;
   try {
@@ -571,6 +571,59 @@ static std::string runT(TS &ts)
     }
     copies = res.empty() ? "ok" : res;
   }
+  // ---- array wrappers that were moved from / reset / self-assigned / copied, then serialised:
+  // a moved-from or reset OwnedArray is EMPTY (count 0, no payload); self-assignment and copies change nothing
+  {
+    std::string res;
+    try {
+      std::vector<uint8_t> D(enc.begin(), enc.begin() + std::min<size_t>(enc.size(), 9));
+      auto ser = [](const AbstractArray<uint8_t> &a) { BufferWriter w; w << a; return hex(w.buffer->begin(), w.buffer->size()); };
+      std::vector<uint8_t> cnt(8, 0);
+      cnt[0] = (uint8_t)D.size();
+      std::string full = hex(cnt.data(), 8), empty = "0000000000000000";
+      if (!D.empty()) full += hex(D.data(), D.size());
+      {
+        OwnedArray<uint8_t> a(D);
+        OwnedArray<uint8_t> b(std::move(a));
+        if (ser(a) != empty || a.size() != 0) res = "OwnedArray(moved-from):" + ser(a);
+        else if (ser(b) != full) res = "OwnedArray(move-constructed):" + ser(b);
+        OwnedArray<uint8_t> c;
+        c = std::move(b);
+        if (res.empty() && (ser(b) != empty || ser(c) != full)) res = "OwnedArray(move-assigned):" + ser(b) + "/" + ser(c);
+        OwnedArray<uint8_t> &cr = c;
+        c = cr;
+        c = std::move(cr);
+        if (res.empty() && ser(c) != full) res = "OwnedArray(self-assigned):" + ser(c);
+        OwnedArray<uint8_t> d(c);
+        c.reset();
+        if (res.empty() && (ser(c) != empty || ser(d) != full)) res = "OwnedArray(reset/copy):" + ser(c) + "/" + ser(d);
+        WriteSizeCalculator wc;
+        wc << a;
+        if (res.empty() && wc.writtenSize != 8) res = "OwnedArray(moved-from):calc" + std::to_string(wc.writtenSize);
+      }
+      {
+        FixedArray<uint8_t> a(D);
+        FixedArray<uint8_t> b(a);
+        FixedArray<uint8_t> &ar = a;
+        a = ar;
+        if (res.empty() && (ser(a) != full || ser(b) != full)) res = "FixedArray(copy/self-assigned):" + ser(a);
+        ArrayView<uint8_t> v(D);
+        ArrayView<uint8_t> v2(v);
+        ArrayView<uint8_t> &vr = v;
+        v = vr;
+        if (res.empty() && (ser(v) != full || ser(v2) != full)) res = "ArrayView(copy/self-assigned):" + ser(v);
+        auto fa = std::make_shared<FixedArray<uint8_t>>(D);
+        FixedArrayView<uint8_t> fv(fa, 0, D.size());
+        FixedArrayView<uint8_t> fv2(fv);
+        FixedArrayView<uint8_t> &fr = fv;
+        fv = fr;
+        if (res.empty() && (ser(fv) != full || ser(fv2) != full)) res = "FixedArrayView(copy/self-assigned):" + ser(fv);
+      }
+    } catch (const std::exception &) {
+      res = "throw";
+    }
+    moved = res.empty() ? "ok" : res;
+  }
   // ---- every truncation point: exact-size heap copy of the first t bytes, reading must throw
   {
     std::string res;
@@ -606,7 +659,7 @@ static std::string runT(TS &ts)
     }
     if (fw.capacity() != cap) out << "!cap";
   }
-  out << " re=" << reuse << " st=" << statics << " cp=" << copies;
+  out << " re=" << reuse << " st=" << statics << " cp=" << copies << " mv=" << moved;
   return out.str();
 }
 
@@ -783,10 +836,13 @@ static std::string runL(TS &ts)
 //   w:<hex> wn:<n>          writer.write                           new            BufferReader r_k(writer.buffer)
 //   rd:<k>:<size>:<m>       r_k.read (m = 1: into memory, shown)    vw:<k>:<count> r_k.getView<uint8_t>(count), read at once
 //   end:<k>                 r_k.end()                               cp:<k>         BufferReader copy of r_k
+//   hand / handa            move the writer's buffer out (ctor / assignment), keep writing     reset / self   buffer->reset() / self-assignment
+//   chkm:<j>                read handed-off message j through a fresh BufferReader
 static std::string runH(TS &ts)
 {
   BufferWriter bw;
   std::vector<std::unique_ptr<BufferReader>> rs;
+  std::vector<std::shared_ptr<OwnedArray<uint8_t>>> msgs;
   static uint8_t dummy = 0;
   std::ostringstream out;
   bool first = true;
@@ -801,6 +857,32 @@ static std::string runH(TS &ts)
       } else if (f[0] == "wn") {
         bw.write(nullptr, std::stoull(f[1]));
         o << "ok|" << bw.buffer->size();
+      } else if (f[0] == "hand" || f[0] == "handa") {
+        // handoff: the finished message is MOVED out of the writer's buffer (move construction / move
+        // assignment of OwnedArray); the writer keeps writing into the same (now empty) buffer object
+        std::shared_ptr<OwnedArray<uint8_t>> m;
+        if (f[0] == "hand") m = std::make_shared<OwnedArray<uint8_t>>(std::move(*bw.buffer));
+        else { m = std::make_shared<OwnedArray<uint8_t>>(); *m = std::move(*bw.buffer); }
+        msgs.push_back(m);
+        o << "msg=" << msgs.size() - 1 << ":" << m->size() << "|" << bw.buffer->size();
+      } else if (f[0] == "reset") {
+        bw.buffer->reset();
+        o << "ok|" << bw.buffer->size();
+      } else if (f[0] == "self") {
+        OwnedArray<uint8_t> &b = *bw.buffer;
+        b = b;                      // self copy assignment
+        b = std::move(b);           // self move assignment
+        o << "ok|" << bw.buffer->size();
+      } else if (f[0] == "chkm") {  // a reader over handed-off message j: all its bytes, then end()
+        size_t j = std::stoull(f[1]);
+        if (j >= msgs.size()) o << "bad";
+        else {
+          std::shared_ptr<AbstractArray<uint8_t>> b = msgs[j];
+          BufferReader r(b);
+          std::vector<uint8_t> tmp(b->size() + 1);
+          r.read(tmp.data(), b->size());
+          o << "msg:" << hex(tmp.data(), b->size()) << (r.end() ? "" : "!notAtEnd");
+        }
       } else if (f[0] == "new") {
         std::shared_ptr<AbstractArray<uint8_t>> b = bw.buffer;
         rs.emplace_back(new BufferReader(b));
